@@ -583,6 +583,20 @@ func Hostile(c *Ctx) error {
 			cases = append(cases, lc...)
 			c.Stats.Note(fmt.Sprintf("%d cases enumerated by TLC from ReceiveLinksMC (how x keep x merge x prior)", len(lc)))
 		}
+		// a stream that leaves a directory (through a later sibling) and then comes back to it: the late entry is out of order
+		// and must be refused - with a sibling that is a symlink to the outside, over a destination that holds a real
+		// directory at the sibling's place
+		{
+			back := model.Tree{{Path: "d", Type: "dir", Perm: 0755, Mtime: 1300000000000000021},
+				{Path: "d/s", Type: "dir", Perm: 0755, Mtime: 1300000000000000022},
+				{Path: "d/s/k", Type: "file", Perm: 0644, Mtime: 1300000000000000023, Data: []byte("k"), Size: 1}}
+			for di, d := range append(append([]model.Tree{}, dests...), back) {
+				for _, sib := range []hpkt{{T: "STAT", Path: "d/s", Kind: "symlink", Link: "/outside/od"}, {T: "STAT", Path: "d/s", Kind: "file", Size: 1}, {T: "STAT", Path: "d/s", Kind: "dir"}} {
+					cases = append(cases, hostileCase{Script: []hpkt{{T: "STAT", Path: "d", Kind: "dir"}, {T: "STAT", Path: "d/a", Kind: "dir"}, {T: "STAT", Path: "d/a/x", Kind: "file", Size: 1},
+						sib, {T: "STAT", Path: "d/a/zz", Kind: "file", Size: 2}}, Dst: d, Origin: fmt.Sprintf("backIntoLeftDirectory/dest%d", di)})
+				}
+			}
+		}
 		// mimicry: an entry of another type that carries the link name, size, owner and modification time of a symlink the
 		// destination already holds (what the metadata differ compares), followed by a child below it
 		for di, d := range dests {
